@@ -20,6 +20,9 @@ pub mod verifylib;
 
 mod format_hex;
 
+#[cfg(in_toto_rs_verif)]
+pub mod verif_hooks;
+
 pub use crate::error::*;
 
 /// Alias for `Result<T, Error>`.
